@@ -53,5 +53,13 @@ if ev:
     meta["detection"].append({"procedure": "scratch harness copy pointing at a worktree with the patch (tools/eval_seed_scratch.py)",
                               "property": ev.get("property"), "exit": ev.get("exit"), "detected": ev.get("detected"),
                               "lines": ev.get("lines", [])[:4]})
+off = f"{src}/result.json"
+if os.path.exists(off):
+    r = json.load(open(off))
+    meta["detection"] = [d for d in meta["detection"] if d.get("procedure", "").startswith("scratch")]
+    for prop, res in r["results"].items():
+        meta["detection"].append({"procedure": "official: git -C /repo apply patch.diff; ./check %s --tier %s; git -C /repo apply -R" % (prop, r["tier"]),
+                                  "at": r.get("at"), "property": prop, "exit": res["exit"], "detected": res["detected"], "wall_s": res["wall_s"],
+                                  "lines": [l[:300] for l in res["lines"][:4]]})
 json.dump(meta, open(f"{dst}/meta.json", "w"), indent=1)
 print(f"{p}-s{n}: kept; detected={[d.get('detected') for d in meta['detection']]}")
